@@ -138,7 +138,7 @@ def w_names(case):
 def category(what: str) -> str:
     for key in ("view after reopen", "view after discard", "of another record", "committed container",
                 "sidecar of committed", "must not alter anything", "the contract says", "disappeared",
-                "left containers", "is not empty", "by the complete file list", "close() left", "close(commit=False) committed", "reports mode", "writable container present",
+                "left containers", "is not empty", "by the complete file list", "name-index coherent", "list_records =", "find_files(", "close() left", "close(commit=False) committed", "reports mode", "writable container present",
                 "succeeded on a record opened read-only"):
         if key in what:
             return key
@@ -214,7 +214,7 @@ def run(ctx: vlib.Ctx):
                 for _ in range(reps):
                     cases.append({"cmds": cell_script(ctx.rng, cls, sit, mode), "seed": ctx.rng.randrange(10**9),
                                   "rich": True, "cell": [cls, sit, mode]})
-    for _ in range(ctx.budget(60, 500)):
+    for _ in range(ctx.budget(36, 500)):
         cases.append({"cmds": random_script(ctx.rng), "seed": ctx.rng.randrange(10**9), "rich": True, "cell": None})
     results = vlib.pmap(w_script, cases, chunksize=2)
 
